@@ -11,7 +11,7 @@ CONSTANTS
   Planned = FALSE
   MaxPlan = 36
   InitStores <- StoresEmpty
-  LateStart = TRUE
+  LateStart = FALSE
   LogSched = TRUE
   KeepLog = TRUE
   OpMenu <- MenuConcX
